@@ -136,7 +136,9 @@ func genC19(e *emitter, tier string, seed int64) {
 		}
 	}
 	// extra name classes only in single-parameter lists
-	extraNames := []string{"", "_u", "a1", "a-b", "A"}
+	// (names outside ASCII: a first character longer than one byte, letters and digits of other scripts,
+	// characters that are neither, an invalid byte)
+	extraNames := []string{"", "_u", "a1", "a-b", "A", "é", "éa", "名", "aé", "a名", "Ж1", "a\u0661", "a\u0301", "\u00a0", "a\u00b2", "\xff", "a\xff", "_é"}
 	argOpts := []argSpec{{""}, {"a"}, {"b"}, {"zz"}}
 	var calls [][]argSpec
 	var recA func(cur []argSpec)
